@@ -260,3 +260,34 @@ pub fn parse_chunks(s: &str) -> Vec<Vec<u8>> {
         .map(|c| (0..c.len() / 2).map(|i| u8::from_str_radix(&c[2 * i..2 * i + 2], 16).unwrap()).collect())
         .collect()
 }
+
+/// Runs the repository's own `rust-number-theory <config>` binary (path in RNT_BIN) on a TOML config
+/// and returns its stdout (None when RNT_BIN is not set: process-level cases are then not generated).
+pub fn run_cli(toml: &str) -> Option<String> {
+    let bin = std::env::var("RNT_BIN").ok()?;
+    let dir = std::env::var("NTV_TMP").unwrap_or_else(|_| std::env::temp_dir().to_string_lossy().to_string());
+    let path = format!("{}/ntvh-cli-{}-{:?}.toml", dir, std::process::id(), std::thread::current().id());
+    std::fs::write(&path, toml).ok()?;
+    let out = std::process::Command::new(bin).arg(&path).output();
+    let _ = std::fs::remove_file(&path);
+    match out {
+        Ok(o) if o.status.success() => Some(String::from_utf8_lossy(&o.stdout).to_string()),
+        Ok(o) => {
+            let err = String::from_utf8_lossy(&o.stderr);
+            Some(format!("panic {}", classify(&err)))
+        }
+        Err(_) => None,
+    }
+}
+/// value of `"key": "value"` in the (pretty-printed JSON) stdout of the CLI
+pub fn json_field(out: &str, key: &str) -> Option<String> {
+    let pat = format!("\"{}\":", key);
+    let i = out.find(&pat)?;
+    let rest = &out[i + pat.len()..];
+    let a = rest.find('"')?;
+    let b = rest[a + 1..].find('"')?;
+    Some(rest[a + 1..a + 1 + b].to_string())
+}
+pub fn toml_list(v: &[BigInt]) -> String {
+    format!("[{}]", v.iter().map(|x| format!("'{}'", x)).collect::<Vec<_>>().join(", "))
+}
